@@ -87,92 +87,110 @@ def validate(mol: Mol, observations, tag="ag18", timeout=600):
     return r
 
 
-def run(tier):
+def _one(args):
+    """explore + validate one instance in a worker process; returns (violations, stats)"""
+    m, tier, seed0 = args
     g = common.import_repo()
     X.Tap.install(g)
-    v = Verdict("C18", tier)
-    rnd = random.Random(common.seed() + 18)
-    states = n_mols = n_paths = 0
-    samples = []
     signal.signal(signal.SIGALRM, _alarm)
     call = ag_call(g)
+    out = []
+    stats = {"states": 0, "mols": 0, "paths": 0, "sample": None, "machinery": None}
     budget = dict(max_nodes=600, max_seconds=6) if tier == "quick" else dict(max_nodes=15000, max_seconds=120)
-    for m in sz_instances(tier):
-        text = m.text()
-        try:
-            obj = g.Molecule(text)
-        except Exception as exc:
-            raise MachineryError(f"{text}: {exc}")
-        # has a start node?
-        try:
-            sag = obj.gen_stochastic_atom_graph(True)
-            start = g.AtomGraph(sag, rng=np.random.default_rng(0))._find_start_source()
-        except Exception as exc:
-            v.violation(f"C18:graph-construction-raises:{type(exc).__name__}", f"{text}: {exc}", {"instance": text})
-            continue
-        if start is None:
-            continue      # outside C18 ("every graph that has a start node")
-        obs = []
+    text = m.text()
+    try:
+        obj = g.Molecule(text)
+    except Exception as exc:
+        stats["machinery"] = f"{text}: {exc}"
+        return out, stats
+    try:
+        sag = obj.gen_stochastic_atom_graph(True)
+        start = g.AtomGraph(sag, rng=np.random.default_rng(0))._find_start_source()
+    except Exception as exc:
+        out.append((f"C18:graph-construction-raises:{type(exc).__name__}", f"{text}: {exc}", {"instance": text}))
+        return out, stats
+    if start is None:
+        return out, stats      # outside C18 ("every graph that has a start node")
+    obs = []
 
-        def guarded(o, rng, _c=call):
-            signal.alarm(20)
+    def guarded(o, rng, _c=call):
+        signal.alarm(20)
+        try:
+            return _c(o, rng)
+        finally:
+            signal.alarm(0)
+    tree = X.explore(obj, call=guarded, projector=ag_project, qgrid={"uniform": [0.25, 0.6, 0.9]}, **budget)
+    for n in tree.nodes:
+        if not n["kids"]:
+            obs.append(n["obs"])
+    for seed in range(4 if tier == "quick" else 25):
+        outs = []
+        for rep in range(2):
             try:
-                return _c(o, rng)
-            finally:
+                signal.alarm(30)
+                ag = call(obj, np.random.default_rng(seed + 1000 * seed0))
                 signal.alarm(0)
-        # all choice sequences (bounded) under the scripted generator, quantile grid for the Schulz-Zimm draw
-        tree = X.explore(obj, call=guarded, projector=ag_project, qgrid={"uniform": [0.25, 0.6, 0.9]}, **budget)
-        for n in tree.nodes:
-            if not n["kids"]:
-                obs.append(n["obs"])
-        # recorded random streams + reproducibility
-        for seed in range(4 if tier == "quick" else 25):
-            outs = []
-            for rep in range(2):
-                try:
-                    signal.alarm(30)
-                    ag = call(obj, np.random.default_rng(seed + 1000 * common.seed()))
-                    signal.alarm(0)
-                    outs.append(ag_project(ag))
-                except Timeout:
-                    outs.append({"kind": "nontermination"})
-                except Exception as exc:
-                    signal.alarm(0)
-                    outs.append({"kind": "error", "exc": type(exc).__name__, "msg": str(exc)[:100]})
-            if outs[0].get("smiles") != outs[1].get("smiles") or outs[0]["kind"] != outs[1]["kind"]:
-                v.violation("C18:equal-seeds-different-molecules", f"{text}: seed {seed} gives {outs[0].get('smiles')} and then {outs[1].get('smiles')}", {"instance": text})
-            obs.append(outs[0])
-        n_paths += tree.paths
-        for o in obs:
-            if o["kind"] == "nontermination":
-                v.violation("C18:generation-does-not-terminate", f"{text}: AtomGraph.generate() did not return within the time bound", {"instance": text})
-            elif o["kind"] == "error":
-                if "updating stopped" in o.get("msg", "") or o.get("exc") in ("Timeout",):
-                    continue       # scipy's quantile search of the Schulz-Zimm law (C11's matter)
-                v.violation(f"C18:generation-raises:{o.get('exc')}", f"{text}: AtomGraph.generate() raises {o.get('exc')}: {o.get('msg')}", {"instance": text})
-        mols = [o for o in obs if o["kind"] == "mol"]
-        if not mols:
-            continue
-        r = validate(m, mols)
-        if not r.ok:
-            print(r.tail(30))
-            raise MachineryError(f"TLC failed on the atom-graph molecules of {m.name}")
-        states += r.distinct
-        n_mols += len(mols)
-        if len(samples) < 4:
-            samples.append({"instance": text, "molecules": len(mols), "example": mols[0]["smiles"]})
-        for d in r.printed:
-            if "failed" in d:
-                o = mols[d["obs"] - 1]
-                endg = "+multi-atom-end-group" if any(len(t.chem()["atoms"]) > 1 for e in m.elems if isinstance(e, Sto) for t in e.end) else ""
-                for c in d["failed"]:
-                    v.violation(f"C18:{c}{endg if c == 'residue-not-a-whole-token' else ''}", f"{text}: generated {o['smiles']} ({len(o['nodes'])} atoms, {d['blocks']} residue blocks): {c}",
-                                {"instance": text, "nodes": o["nodes"], "edges": o["edges"]})
-        for o in mols:
-            if o.get("sane") and o.get("fragments", 1) != 1:
-                v.violation("C18:not-one-connected-molecule", f"{text}: generated {o['smiles']} has {o['fragments']} fragments", {"instance": text})
+                outs.append(ag_project(ag))
+            except Timeout:
+                outs.append({"kind": "nontermination"})
+            except Exception as exc:
+                signal.alarm(0)
+                outs.append({"kind": "error", "exc": type(exc).__name__, "msg": str(exc)[:100]})
+        if outs[0].get("smiles") != outs[1].get("smiles") or outs[0]["kind"] != outs[1]["kind"]:
+            out.append(("C18:equal-seeds-different-molecules", f"{text}: seed {seed} gives {outs[0].get('smiles')} and then {outs[1].get('smiles')}", {"instance": text}))
+        obs.append(outs[0])
+    stats["paths"] = tree.paths
+    for o in obs:
+        if o["kind"] == "nontermination":
+            out.append(("C18:generation-does-not-terminate", f"{text}: AtomGraph.generate() did not return within the bound (time / generator calls)", {"instance": text}))
+        elif o["kind"] == "error":
+            if "updating stopped" in o.get("msg", "") or o.get("exc") in ("Timeout",):
+                continue       # scipy's quantile search of the Schulz-Zimm law (C11's matter)
+            out.append((f"C18:generation-raises:{o.get('exc')}", f"{text}: AtomGraph.generate() raises {o.get('exc')}: {o.get('msg')}", {"instance": text}))
+    mols = [o for o in obs if o["kind"] == "mol"]
+    if not mols:
+        return out, stats
+    r = validate(m, mols)
+    if not r.ok:
+        stats["machinery"] = f"TLC failed on the atom-graph molecules of {m.name}\n" + r.tail(20)
+        return out, stats
+    stats["states"] = r.distinct
+    stats["mols"] = len(mols)
+    stats["sample"] = {"instance": text, "molecules": len(mols), "example": mols[0]["smiles"]}
+    for d in r.printed:
+        if "failed" in d:
+            o = mols[d["obs"] - 1]
+            endg = "+multi-atom-end-group" if any(len(t.chem()["atoms"]) > 1 for e in m.elems if isinstance(e, Sto) for t in e.end) else ""
+            for c in d["failed"]:
+                out.append((f"C18:{c}{endg if c == 'residue-not-a-whole-token' else ''}", f"{text}: generated {o['smiles']} ({len(o['nodes'])} atoms, {d['blocks']} residue blocks): {c}",
+                            {"instance": text, "nodes": o["nodes"], "edges": o["edges"]}))
+    for o in mols:
+        if o.get("sane") and o.get("fragments", 1) != 1:
+            out.append(("C18:not-one-connected-molecule", f"{text}: generated {o['smiles']} has {o['fragments']} fragments", {"instance": text}))
+    return out, stats
+
+
+def run(tier):
+    from concurrent.futures import ProcessPoolExecutor
+    v = Verdict("C18", tier)
+    insts = sz_instances(tier)
+    with ProcessPoolExecutor(max_workers=12) as ex:
+        results = list(ex.map(_one, [(m, tier, common.seed()) for m in insts], chunksize=1))
+    states = n_mols = n_paths = 0
+    samples = []
+    for viol, st in results:
+        if st["machinery"]:
+            print(st["machinery"])
+            raise MachineryError("worker failed")
+        for key, what, rep in viol:
+            v.violation(key, what, rep)
+        states += st["states"]
+        n_mols += st["mols"]
+        n_paths += st["paths"]
+        if st["sample"] and len(samples) < 4:
+            samples.append(st["sample"])
     v.coverage = {"states": states, "transitions": states, "traces_validated_against_impl": n_mols, "molecules_validated": n_mols, "choice_paths": n_paths,
-                  "samples": samples}
+                  "instances": len(insts), "samples": samples}
     v.assumptions = ["molecules started from one of several end groups have no start node and are outside C18 (the statement's precondition)",
                      "residue instances are the blocks of atoms in creation order", "scipy's failures of the Schulz-Zimm quantile search are C11's matter and skipped here"]
     return v.finish()
